@@ -109,15 +109,25 @@ def azimuth_processing(ctx, rng):
     """single azimuth / azimuthal / RotDpp on the implementation at the default FFT length + model correspondence at small n"""
     # model correspondence (records with non-zero orientation, azimuths outside [0,180))
     cases = []
-    for i in range(ctx.budget(24, 300)):
-        fam = ["saz", "rot", "saz"][i % 3]
+    for i in range(ctx.budget(40, 400)):
+        fam = ["saz", "rot", "saz", "rot", "saz", "az"][i % 6]
         dt = float(rng.choice(pg.DTS))
-        recs = [pg.gen_record(rng, n=int(rng.integers(16, 120)), dt=dt, deg=pick_angle(rng)) for _ in range(int(rng.integers(1, 3)))]
+        nrec = int(rng.integers(1, 3)) if fam != "az" else int(rng.integers(2, 4))
+        dts = [dt] * nrec
+        policy = pg.POLICIES[0]
+        if fam == "az" and rng.random() < 0.7:
+            # the azimuthal result must be the stack of the single-azimuth results also for record lists with mixed time steps
+            # under every policy (the policy is applied inside every single-azimuth run)
+            dts = [float(rng.choice([dt, float(rng.choice(pg.DTS))])) for _ in range(nrec)]
+            policy = pg.POLICIES[int(rng.integers(0, 3))]
+        recs = [pg.gen_record(rng, n=int(rng.integers(16, 120 if fam != "az" else 36)), dt=d, deg=pick_angle(rng)) for d in dts]
         max_n = max(len(r["vt"]) for r in recs)
-        sm = pg.gen_smoothing(rng, max_n, [dt], op=str(rng.choice(["konno_and_ohmachi", "parzen", "linear_triangular", "log_rectangular"])))
-        c = dict(family=fam, smoothing=sm, width=float(rng.choice(pg.WIDTHS)), fft=dict(n=None), policy=pg.POLICIES[0], records=recs)
+        sm = pg.gen_smoothing(rng, max_n if fam != "az" else 32768, dts, op=str(rng.choice(["konno_and_ohmachi", "parzen", "linear_triangular", "log_rectangular"])), nfc=(6 if fam == "az" else None))
+        c = dict(family=fam, smoothing=sm, width=float(rng.choice(pg.WIDTHS)), fft=(dict(n=None) if fam != "az" else None), policy=policy, records=recs)
         if fam == "saz":
             c["azimuth"] = pick_angle(rng)
+        elif fam == "az":
+            c["azimuths"] = [float(a) for a in sorted(rng.choice(np.arange(0, 180, 15), 2, replace=False))]
         else:
             c["pct"] = float(rng.choice([0, 25, 50, 84, 100])); c["azimuths"] = [float(a) for a in np.arange(0, 180, 30)]
         cases.append(c)
@@ -133,11 +143,11 @@ def azimuth_processing(ctx, rng):
         ctx.count("proc:" + c["family"])
         ctx.traces += 1
         if not ok:
-            nfft = max(len(r["vt"]) for r in c["records"])
+            nfft = max(len(r["vt"]) for r in c["records"]) if c["family"] != "az" else 32768
             if pg.smoothing_margin(c, nfft) < 1e-9:
                 ctx.near_tie_skipped += 1
                 continue
-            ctx.violation("azimuth-measured-from-north", dict(case=c, differs_in=what, impl=(im["result"] if isinstance(im["result"], str) else np.asarray(im["result"]).tolist()),
+            ctx.violation("azimuth-measured-from-north" if c["family"] != "az" else "azimuthal-is-stack-of-single-azimuths", dict(case=c, differs_in=what, impl=(im["result"] if isinstance(im["result"], str) else np.asarray(im["result"]).tolist()),
                                                             model=(mo["result"] if isinstance(mo["result"], str) else np.asarray(mo["result"]).tolist())), seam="hvsrpy.process")
     # metamorphic laws on the implementation
     for j in range(ctx.budget(12, 120)):
